@@ -37,8 +37,9 @@ Theorem C03_gen_enqueue_table :
             Some (match enq_class err_counts_as_done s with CDone => 0 | CSched => 1 | CTrav => 2 end).
 Proof. split; [reflexivity | destruct s; reflexivity]. Qed.
 
-(* the behaviour flag of the faithful model: eval.go:325 lists TaskErr with TaskOk *)
-Theorem C03_gen_err_counts_as_done : err_counts_as_done = true.
+(* the behaviour flag of the faithful model, read off the Go AST: after the repair
+   of eval.go (fix: commit) TaskErr is no longer listed with TaskOk in Enqueue *)
+Theorem C03_gen_err_counts_as_done : err_counts_as_done = false.
 Proof. reflexivity. Qed.
 
 (* state.Return: default / TaskErr / TaskOk / TaskLost *)
